@@ -25,6 +25,8 @@ type vGot struct {
 	msgs  [][]byte
 	tail  []byte // bytes handed out by the reader that failed
 	err   error
+	// atReader: the error came from Conn.Reader (no message could be started), not from reading a started message
+	atReader bool
 }
 
 // vReadLoop is the application: read messages until an error.
@@ -34,6 +36,7 @@ func vReadLoop(c *Conn, bufSize int, max int) vGot {
 		typ, r, err := c.Reader(vBG)
 		if err != nil {
 			g.err = err
+			g.atReader = true
 			return g
 		}
 		b, err := vReadAll(r, bufSize)
@@ -116,6 +119,12 @@ func verifC03_struct() {
 	var frames []vFrame
 	for i := 0; i < k; i++ {
 		frames = append(frames, vSymFrame(i, nLens))
+	}
+	if deflate != 0 {
+		// compressed payloads are C03.deflate's subject; here RSV1 may appear wherever it is a violation
+		for _, f := range frames {
+			vAssume(vNot(vAnd(f.rsv1, vOr(f.opcode == 1, f.opcode == 2))))
+		}
 	}
 	wire := vEncodeFrames(frames)
 	t := vNewTransport(wire)
@@ -235,6 +244,7 @@ func verifC03_deflate() {
 	// second message: compressed again (exercises reader reuse / context takeover bookkeeping) or plain
 	second := vBytes("second", 2)
 	takeover := (client && (mode == 1 || mode == 3)) || (!client && (mode == 1 || mode == 4))
+	negProbe := false
 	switch k := vChoose("secondKind", 3); {
 	case k == 1:
 		frames = append(frames, vDataFrames(vStored(second, []int{2}, false), nil, 1, true, client)...)
@@ -243,6 +253,12 @@ func verifC03_deflate() {
 		frames = append(frames, vDataFrames(vBackrefProbe, nil, 1, true, client)...)
 		second = []byte{data[n-1], data[n-1], data[n-1]}
 		vReach("C03.deflate.backref-into-previous-message")
+	case k == 2 && !takeover:
+		// without context takeover for this direction nothing of the previous message may remain in the window: a
+		// message that starts with a back-reference is not decodable and must not yield a message
+		frames = append(frames, vDataFrames(vBackrefProbe, nil, 1, true, client)...)
+		negProbe = true
+		vReach("C03.deflate.backref-without-takeover")
 	default:
 		frames = append(frames, vDataFrames(second, nil, 1, false, client)...)
 	}
@@ -269,7 +285,14 @@ func verifC03_deflate() {
 		vClassify("shape", "sync-flush")
 	}
 	ok := len(g.msgs) == 2
-	if ok {
+	if negProbe {
+		// the probe message itself must be what fails: it starts (its header is fine) and cannot be decoded
+		ok = len(g.msgs) == 1 && !g.atReader
+		if ok {
+			ok = vAnd(g.types[0] == MessageBinary, vEqBytes(g.msgs[0], data))
+		}
+		vAssert(len(g.tail) == 0, "C03.deflate.no-bytes-from-foreign-history")
+	} else if ok {
 		ok = vAnd(vAnd(g.types[0] == MessageBinary, vEqBytes(g.msgs[0], data)), vAnd(g.types[1] == MessageText, vEqBytes(g.msgs[1], second)))
 	}
 	vAssert(ok, "C03.deflate.messages")
